@@ -3,7 +3,7 @@
 # For each seeded change: scratch worktree of /repo HEAD + patch, then the quick check of the property it breaks
 # (plus extra checks listed in seeded/<name>/also_run, if any) with VERIF_REPO / VERIF_SCRATCH pointing at scratch
 # locations, so neither /repo nor /verif/evidence is touched.  Writes detected_by into meta.json and seeded/RESULTS.md.
-cd /verif
+cd /verif; mkdir -p /tmp/wt
 names="$@"; [ -n "$names" ] || names=$(ls seeded | grep -v RESULTS)
 for name in $names; do
   d=seeded/$name; [ -f $d/patch.diff ] || continue
